@@ -10,6 +10,7 @@ package verifseam
 import (
 	"fmt"
 	"sort"
+	"sync/atomic"
 )
 
 // Chooser answers a choice point: a value in [0,n). bounded=true means a
@@ -25,9 +26,12 @@ var (
 	Trace func(string)
 	// PointHook is called at every scheduling point (C19).
 	PointHook func(site string)
-	// Stats
+	// Stats (atomic: the library may be driven from several goroutines when no
+	// chooser is attached)
 	Begins, Nexts int64
-	Sites         = map[string]int64{}
+	// CountSites enables the per-site counter (single-goroutine runs only).
+	CountSites bool
+	Sites      = map[string]int64{}
 )
 
 // SetChooser attaches (or with nil detaches) the explorer.
@@ -72,8 +76,10 @@ func sortKeys[K comparable, V any, M ~map[K]V](m M) []keyed[K] {
 
 // Begin starts an iteration over m.
 func Begin[K comparable, V any, M ~map[K]V](m M, site string) *Iter[K, V, M] {
-	Begins++
-	Sites[site]++
+	atomic.AddInt64(&Begins, 1)
+	if CountSites {
+		Sites[site]++
+	}
 	it := &Iter[K, V, M]{m: m, site: site, produced: map[K]bool{}, isInit: map[K]bool{}}
 	it.initial = sortKeys[K, V, M](m)
 	for _, k := range it.initial {
@@ -85,7 +91,7 @@ func Begin[K comparable, V any, M ~map[K]V](m M, site string) *Iter[K, V, M] {
 
 // Next advances; it reports whether a key/value pair was produced.
 func (it *Iter[K, V, M]) Next() bool {
-	Nexts++
+	atomic.AddInt64(&Nexts, 1)
 	if it.done {
 		return false
 	}
